@@ -95,16 +95,28 @@ func ParseDeviceCodeClientSecret(wwwAuthenticate string) string {
 
 // parseQuotedParam extracts a quoted parameter value (key="value") from a
 // WWW-Authenticate header value. Returns an empty string if not found.
+//
+// The header is scanned parameter by parameter: a name matches only as a
+// whole parameter name (client_id is not found inside device_code_client_id)
+// and never inside the quoted value of another parameter.
 func parseQuotedParam(header, param string) string {
-	key := param + `="`
-	idx := strings.Index(header, key)
-	if idx == -1 {
-		return ""
+	key := param + "="
+	nameStart := 0
+	for i := 0; i < len(header); i++ {
+		switch header[i] {
+		case ' ', ',':
+			nameStart = i + 1
+		case '"':
+			end := strings.IndexByte(header[i+1:], '"')
+			if end == -1 {
+				return ""
+			}
+			if header[nameStart:i] == key {
+				return header[i+1 : i+1+end]
+			}
+			i += 1 + end // closing quote; the next name starts after it
+			nameStart = i + 1
+		}
 	}
-	rest := header[idx+len(key):]
-	end := strings.Index(rest, `"`)
-	if end == -1 {
-		return ""
-	}
-	return rest[:end]
+	return ""
 }
